@@ -19,6 +19,8 @@ TEXT_POOL = [
     'trailing spaces   ', '    leading', '%s %d %(x)s', '"""triple"""', "'''triple'''", '#comment', 'a' * 120,
     'path /usr/local/bin/thing', 'user@example.com', '00:00', '1/2/3', '15 Jan 1999', 'Feb 30 2021', '30 Feb 2021',
     '2021-02-30 10:00:00', 'id=7 id=12', '-' * 20, '\\', 'line with \x0c formfeed', 'NULL', 'None', 'True',
+    # backslash sequences that are malformed escapes in a Python string literal (the command text is quoted into the script)
+    'C:\\Users\\me\\Notes', 'cost\\xchange', '\\Notes and \\u12', '\\0 \\777 \\8', 'ends with backslash\\',
 ]
 
 
@@ -42,6 +44,10 @@ def gen_case(rng):
         how = rng.choice(['explicit', 'explicit', 'dir', 'glob', 'sibling'])
         ext = {'text': rng.choice(['.txt', '.csv', '.log', '.json', '']), 'binary': rng.choice(['.bin', '.dat', '.png'])}[kind]
         name = 'out%d%s' % (j, ext)
+        if rng.random() < 0.2:
+            # names with capitals, names that differ from a reserved test name only in case
+            name = rng.choice(['Out%d%s' % (j, ext), 'OUT%d%s' % (j, ext.upper()), 'Stdout', 'STDERR', 'Exit_Code',
+                               'No_Exception', 'Summary%d%s' % (j, ext), 'stdout%s' % ext])
         if kind == 'text':
             content = gen_text(rng)
             if rng.random() < 0.1:
@@ -54,6 +60,14 @@ def gen_case(rng):
         twin = dict(files[0], how='dir2', content=files[0]['content'] + ('x\n' if files[0]['kind'] == 'text' else '00'))
         files[0]['how'] = 'dir'
         files.append(twin)
+    if files and rng.random() < 0.15:
+        # a second output in the same directory whose name differs only in the case of its letters
+        f0 = files[rng.randrange(len(files))]
+        if f0['how'] != 'dir2' and f0['name'].swapcase() != f0['name'] and not any(f['name'] == f0['name'].swapcase() for f in files):
+            files.append(dict(f0, name=rng.choice([f0['name'].swapcase(), f0['name'].capitalize(), f0['name'].upper()]),
+                              content=f0['content'] + ('y\n' if f0['kind'] == 'text' else '01')))
+            if files[-1]['name'] == f0['name']:
+                files.pop()
     flags = []
     if rng.random() < 0.15:
         flags.append('--no-stdout')
